@@ -6,6 +6,7 @@ differential oracles.
 from __future__ import annotations
 
 import itertools
+from typing import Any
 import os
 
 import numpy as np
@@ -391,11 +392,24 @@ def _shared(res, sd):
     def __call__(self, x):
       return self.p2(self.p1(x)['x'])
 
+  class TopF(nn.Module):
+    """the shared instance reaches two different parents as a dataclass field"""
+    left: Any = None
+    right: Any = None
+
+    @nn.compact
+    def __call__(self, x):
+      return self.right(self.left(x)['x'])
+
+  def mk_field():
+    s = dsl.A(d=sd)
+    return TopF(left=dsl.A(d=(('sub',),), sub=s), right=dsl.A(d=(('sub',),), sub=s))
+
   single = dsl.A(d=(('child', 'A', sd, 's', 2),))
   res['evals'] += 1
   o_ref, v_ref = single.init_with_output(rngs, x)
   n_ref = len(jax.tree.leaves(v_ref))
-  for nm, T in (('compact', TopC), ('setup', TopS)):
+  for nm, T in (('compact', TopC), ('setup', TopS), ('field', mk_field)):
     res['evals'] += 3
     try:
       o, v = T().init_with_output(rngs, x)
@@ -416,6 +430,30 @@ def _shared(res, sd):
     if _paths_no_idx(np_tree(upd)) != _paths_no_idx(np_tree(v)):
       V(f'shared-structure:{nm}', 'apply moved the shared instance\'s variables',
         observed=_paths_no_idx(np_tree(upd)), expected=_paths_no_idx(np_tree(v)))
+    # bind / unbind of the whole program and of each parent keeps the sharing
+    res['evals'] += 3
+    try:
+      um, uv = T().bind(v).unbind()
+      ou = um.apply(uv, x)
+      if canon_tree(np.asarray(ou['x'])) != canon_tree(np.asarray(o2['x'])):
+        V(f'shared-unbind-out:{nm}', 'bind().unbind() of a program with a shared instance does not '
+          'compute like the original')
+      if canon_tree(np_tree(uv)) != canon_tree(np_tree(v)):
+        V(f'shared-unbind-vars:{nm}', 'unbind() returned different variables',
+          observed=np_tree(uv), expected=np_tree(v))
+      oi, vi = um.init_with_output(rngs, x)
+      if canon_tree(np_tree(vi)) != canon_tree(np_tree(v)):
+        V(f'shared-unbind-init:{nm}', 'init of the unbound module no longer shares the instance '
+          '(different variable tree)', observed=np_tree(vi), expected=np_tree(v))
+      es = jax.eval_shape(um.init, rngs, x)
+      if _paths_no_idx(np_tree(jax.tree.map(lambda a: np.zeros(a.shape), es))) != \
+         _paths_no_idx(np_tree(v)):
+        V(f'shared-unbind-shape:{nm}', 'eval_shape(init) of the unbound module has another tree')
+      om, _ = um.apply(uv, x, mutable=True)
+      if canon_tree(np.asarray(om['x'])) != canon_tree(np.asarray(o3['x'])):
+        V(f'shared-unbind-mutable:{nm}', 'mutable apply of the unbound module differs')
+    except Exception as e:  # noqa
+      V(f'shared-unbind-raises:{nm}', f'{type(e).__name__}: {str(e)[:200]}')
     core.outcome(res, f'shared-ok:{nm}')
   res['nontrivial'].append(core.h(pkey))
   if not res['samples']:
